@@ -374,3 +374,31 @@ CHECKS["C08"] = {
     ],
     "mandatory_labels": {"all": ["pipeline/dfs-schedules", "pipeline/registration-between-lookup-and-park", "pipeline/undecryptable-below-decryptable", "pipeline/with-cancel", "pipeline/arrival-beyond-key-window"]},
 }
+
+# ---- layers and dimensions added after the first version (see DESIGN.md section 9 and appendix C.3)
+_ADDED = {
+    "C01": "Every payload handed out (store path and push path) must still be the original at the end of the session; a second unit seals from several goroutines of one device at once (real parallelism, seeded delays) and requires every envelope to open to its payload.",
+    "C02": "The random histories also deliver messages push-first.",
+    "C03": "The forged entry must also be absent from the history replay (ListEvents, both directions).",
+    "C04": "Half of the multi-member sessions start the way group creation does (announce the device, claim the group).",
+    "C05": "Concurrent half: controlled schedules (DFS + rapid) of overlapping first announcements on an instrumented secret store, by-effect oracle.",
+    "C06": "Added attacks: live relay of a request addressed to the adversary, replay of recorded interrupted sessions. Second layer: the contact request manager's stream handler on a real account store (only the proven key is ever recorded, a refusal leaves no entry).",
+    "C08": "The receiver's key window is a scenario parameter (1-3 or default); 'decryptable' is the least fixed point of the C02 rule over the arrived entries.",
+    "C09": "Optionally the sender reads back its own envelopes, and the datastore refuses chain-key writes now and then (a send reporting the error produced no envelope).",
+    "C10": "After restart the in-order completion updates the push reference window after each open; the push payloads inside the final window must open.",
+    "C11": "Blob kinds include the alternative Ed25519 serialisation; controlled schedules of overlapping first uses on an instrumented keystore wrapper (answers handed out = answers kept, contact and restored device agree).",
+    "C12": "Descriptors also of groups held as joined from an accepted invitation variant; service layer: refused alterations followed by the genuine join, activation and inspection (GroupInfo, the group's own log).",
+    "C13": "The same cube through the GroupMetadataList / GroupMessageList RPCs of a real service (collecting server stream).",
+    "C14": "Store layer: push payloads made by the writer's message store and opened by a member receiving the same entries through its real message store; controlled schedules of a push open racing a log delivery of the same sender; cleartexts handed out are compared again at the end.",
+    "C15": "Bounded-exhaustive add orders for the priority queue; controlled schedules with producers adding during a NextAll flush.",
+    "C17": "Also: the head-exchange marshaler between two instances, and the rotations registered by WeshOrbitDB.OpenGroup (current point and the three following ones) against an independent keyed digest.",
+    "C18": "A differential oracle against a reference frame parser runs under rapid in both tiers and as the body of a native go fuzzing campaign in the thorough tier.",
+    "C20": "Histories include accepted contacts with opened contact groups, possibly blocked / unblocked; the protocol service is started on the restored node and must activate and report every exported group.",
+}
+for _k, _v in _ADDED.items():
+    CHECKS[_k]["level_text"] += ". " + _v
+CHECKS["C05"]["technique"] += "; generated-schedule exploration for overlapping announcements"
+CHECKS["C11"]["technique"] += "; generated-schedule exploration for overlapping first uses"
+CHECKS["C14"]["technique"] += "; generated-schedule exploration for push/log races"
+CHECKS["C18"]["technique"] = ("property-based testing (rapid): round-trip + negative-input + differential (reference frame parser) oracles, exhaustive chunking "
+                              "enumeration; coverage-guided native go fuzzing of the differential oracle in the thorough tier")
